@@ -12,25 +12,43 @@ from harness.extract import request_schema as x_schema   # C05x's extractor, use
 from harness.rigs import power as rig
 
 MANIFEST = {
-    "text": "Lean 4 proof about an executable model of Node.power_on/power_off/reset/apply_timestep, the interface enable/disable "
-            "guards, the start-up/shut-down actions on services and applications and the node-level request routes: for every "
-            "start-up/shut-down duration (<= 0 = instant), every initial state and every sequence of node-level requests, ticks and "
-            "frames, (1) every assignment to operating_state follows ON->SHUTTING_DOWN->OFF->BOOTING->ON (shortcuts only for "
-            "duration 0); (2) a transitional state entered with duration d is held for exactly d ticks and left at tick d+1, "
-            "whatever requests arrive meanwhile; reset = shutdown then automatic start; (3) a node that is not ON has no enabled "
-            "interface, accepts and emits no frame; (4) an OFF node has no running service/application; (5) every request but "
-            "startup is refused while not ON, for the regenerated route table of every node class; (6) on reaching ON linked "
-            "interfaces, stopped services and closed applications come back. Tie: Gen/Power.lean (enum, defaults, statement shape of "
-            "the four power methods, interface guards, validators, route tables per class, software guards) + differential rig "
-            "R-node (bounded-exhaustive and random request/tick/ping sequences on two linked hosts; random sequences on a "
-            "computer-server-switch-router-firewall-wireless-router network) comparing every response, every operating_state "
-            "assignment and the whole modelled state after every operation, with implementation-side oracles for frames passing an "
-            "interface of a non-ON node.",
-    "note": "C12-specific: the software layer is summarised (service/application state + restart/install countdown); what a running "
-            "service does with a payload is C13. Power methods called through the Python API from arbitrary states (not through "
-            "requests) are modelled but the legal-moves theorem is about requests, as the property's quantifier is.",
-    "technique": "Lean 4 theorems (induction over operation sequences) over an executable power model; model tied by regenerated "
-                 "tables/shapes and a differential rig",
+    "text": "Lean 4 proof about an executable model of Node.power_on/power_off/reset/apply_timestep/pre_timestep, the interface "
+            "enable/disable/connect_link guards (NIC, router interface, switch port, wireless access point), the start-up/shut-down "
+            "actions on services and applications, the node-level request routes, the direct Python API, the scenario loader's power "
+            "calls and Network.setup_for_episode. PROVED for every start-up/shut-down duration (any integer; <= 0 = instant), every "
+            "initial state and every sequence of node-level requests, ticks and frames: (1) every assignment to operating_state "
+            "follows ON->SHUTTING_DOWN->OFF->BOOTING->ON (shortcuts only for duration <= 0); (2) a transitional state entered with "
+            "duration d is held for exactly d ticks and left at tick d+1, whatever requests arrive meanwhile and whatever the "
+            "configured durations are changed to in mid-countdown; reset = shutdown then automatic start; (3) a node that is not ON has "
+            "no enabled interface, accepts and emits no frame, and a ping along a path needs every node on it ON; (4) an OFF node has "
+            "no RUNNING or PAUSED service and no RUNNING application - (3) and (4) for ANY route table and also under direct calls of "
+            "power_on/power_off/reset/enable/disable/connect_link/service verbs/run/close/install from any state, after loading any "
+            "declared operating_state/durations/countdowns, and after episode set-up; (5) every request but startup is refused while "
+            "not ON, for the route table of every node class (ten classes, from two independent extractors); (6) per tick, a node "
+            "that is not ON executes only super/interfaces/the two countdown blocks of apply_timestep (no node scan, process, "
+            "service, application or file-system step) and no software or scan clock moves however long it stays not ON, while "
+            "every statement of pre_timestep runs regardless (counter resets, user-session time-outs); (7) on reaching ON every "
+            "linked interface is enabled and RUNNING/PAUSED/STOPPED services and RUNNING/CLOSED applications are RUNNING, DISABLED / "
+            "RESTARTING / INSTALLING software is left as it was (exact, service by service). Tie: Gen/Power.lean (enum, defaults, "
+            "statement shape of the power methods, guarded statement lists of apply_timestep and pre_timestep, interface guards and "
+            "every enable/disable definition, validators, route tables per class, inventories of every class below Node and "
+            "NetworkInterface, the power-relevant statements of constructors/loader/set-up, every power_on/power_off call site, "
+            "software guards) + Gen/RequestSchema.lean (C05x's schematic request tree) + differential rig R-node: bounded-exhaustive "
+            "and random request/tick/ping sequences on two hosts, on a six-class network, and with a node of EVERY instantiable class "
+            "under test between peers; direct API calls, run-time duration changes, negative and huge durations; whole power cycles "
+            "from assorted software states; scenario dictionaries with every declared state through PrimaiteGame.from_config and "
+            "setup_for_episode; user-session time-outs across power changes. Compared after every operation: the response, every "
+            "operating_state assignment, the whole modelled state, and per tick which sub-component pre_timestep/apply_timestep calls "
+            "the node made; implementation-side oracles for frames passing an interface of a non-ON node, enabled interfaces / "
+            "running software in the wrong state, accepted requests, moved software clocks, pings crossing a non-ON node.",
+    "note": "C12-specific: the software layer is summarised (service/application state + restart/install countdown, two node-scan "
+            "countdowns); what a running service does with a payload is C13, sessions are C16 (here only: their time-out ignores "
+            "power). The legal-moves and timing theorems are about requests, as the property's quantifier is: the Python API and "
+            "episode set-up can leave the state machine (power_on() with duration <= 0 from SHUTTING_DOWN: theorem C12_setup_jump, an "
+            "observation related to F-31, not claimed as a violation); the invariants (3)(4) are proved for those entry points too. "
+            "Traffic theorems stop at the interface's `enabled` test (C06/C08 take over).",
+    "technique": "Lean 4 theorems (induction over operation sequences, invariants, statement-list interpretation) over an executable "
+                 "power model; model tied by regenerated tables/shapes/inventories and a differential rig",
     "design_ref": "5/C12",
 }
 MODULES = ["PrimaiteModel.Props.C12", "PrimaiteModel.Props.C12Deep"]
@@ -160,7 +178,7 @@ def run(ctx: Ctx):
         for k, c in enumerate(rig.exhaustive_pair(depth_all, (u, d, 1, 1))):
             c["ops"] += [dict(o) for o in TAIL]
             cases.append((f"exh{depth_all}:{u},{d}:{k}", c))
-    deeper = [(0, 0)] + rng.shuffle([x for x in all_durs if x != (0, 0)])[: ctx.scale(0, 3)]
+    deeper = [(0, 0)] + rng.shuffle([x for x in all_durs if x != (0, 0)])[: ctx.scale(0, 1)]
     if ctx.thorough:
         for (u, d) in deeper:
             for k, c in enumerate(rig.exhaustive_pair(depth_all + 1, (u, d, 1, 1))):
@@ -179,19 +197,19 @@ def run(ctx: Ctx):
             cases.append((f"clsexh{cls_depth + 1}:{cls}:0,0:{k}", c))
     # --- random: two hosts, the six-class network, every class (requests only / with direct API calls and duration changes),
     #     whole power cycles from assorted software states, scenario files through the loader
-    for k in range(ctx.scale(400, 6000)):
+    for k in range(ctx.scale(400, 4000)):
         cases.append((f"pair:{k}", rig.gen_random_pair(rng, ctx.scale(30, 60))))
-    for k in range(ctx.scale(150, 2500)):
+    for k in range(ctx.scale(150, 1500)):
         cases.append((f"scen:{k}", rig.gen_random_scenario(rng, ctx.scale(30, 60))))
-    for k in range(ctx.scale(320, 6000)):
+    for k in range(ctx.scale(320, 4000)):
         cases.append((f"cls:{k}", rig.gen_random_cls(rng, ctx.scale(30, 60), cls=rig.ALL_CLASSES[k % len(rig.ALL_CLASSES)])))
-    for k in range(ctx.scale(240, 4000)):
+    for k in range(ctx.scale(240, 3000)):
         cases.append((f"clsapi:{k}", rig.gen_random_cls(rng, ctx.scale(30, 60), cls=rig.ALL_CLASSES[k % len(rig.ALL_CLASSES)], api=True)))
-    for k in range(ctx.scale(200, 3000)):
+    for k in range(ctx.scale(200, 2000)):
         cases.append((f"cycle:{k}", rig.gen_cycle(rng)))
-    for k in range(ctx.scale(120, 1500)):
+    for k in range(ctx.scale(120, 1000)):
         cases.append((f"load:{k}", rig.load_case(rng, ctx.scale(16, 40))))
-    for k in range(ctx.scale(100, 1500)):
+    for k in range(ctx.scale(100, 1000)):
         cases.append((f"sess:{k}", rig.gen_sessions(rng)))
 
     workers = int(os.environ.get("C12_WORKERS", "0")) or max(1, min(14, (os.cpu_count() or 2) - 2))
@@ -217,6 +235,11 @@ def run(ctx: Ctx):
         refused = any(m.startswith("failure") or m.startswith("unreachable") for m in model)
         ctx.case(case, left_on or refused)
         ctx.count("family:" + name.split(":")[0])
+        if case["kind"] == "cls":
+            ctx.count("under-test:" + case["nodes"][0]["cls"])
+        else:
+            for c in sorted({sp["cls"] for sp in case["nodes"]}):
+                ctx.count("present:" + c)
         for q, m in zip(lines, model):
             w = q.split()
             if m == "bad-op":
@@ -254,6 +277,11 @@ def run(ctx: Ctx):
         if oracle:
             oracle_bad += 1
         # a disagreement with the proved model on a property observable, or a property oracle failing on the implementation
+        batch_sigs = {json.dumps(_oracle_sig(o), sort_keys=True) for o in oracle}
+        if i >= 0:
+            batch_sigs.add(json.dumps(_diff_sig(case, lines, impl, model, i), sort_keys=True))
+        if batch_sigs <= reported:
+            continue  # nothing new in this trace: every signature it shows has been reported (with a replay) already
         fails0, *_ = _eval_case(case)
         sigs0 = {json.dumps(f["sig"], sort_keys=True) for f in fails0}
         if not fails0:  # seen in the batch but not when the case is run again on its own: keep what was seen
@@ -283,4 +311,11 @@ def run(ctx: Ctx):
     ctx.oblige("rig:R-node agrees on every trace", "correspondence", agree == len(cases),
                f"{len(cases) - agree} of {len(cases)} traces disagree or fail an oracle; not reproduced alone: {json.dumps(unstable)[:1500]}")
     ctx.notes.append(f"cases={len(cases)} lines={len(lines_all)} workers={workers} exhaustive depth {depth_all} over 16 duration pairs"
-                     + (f", depth {depth_all + 1} over {deeper}" if ctx.thorough else ""))
+                     + (f", depth {depth_all + 1} over {deeper}" if ctx.thorough else "")
+                     + f"; class family: depth {cls_depth} over {len(cls_durs)} duration pairs + depth {cls_depth + 1} at (0,0), 7 classes")
+    ctx.notes.append("node classes under test (cases): " + ", ".join(
+        f"{c}={ctx.hist.get('under-test:' + c, 0) + (ctx.hist.get('family:exh' + str(depth_all), 0) if c == 'computer' else 0)}"
+        for c in rig.ALL_CLASSES))
+    ctx.notes.append("ticks observed with the node not ON afterwards: " + ", ".join(
+        f"{k[5:]}={v}" for k, v in sorted(ctx.hist.items()) if k.startswith("work:not-ON")) +
+        " (tags: pn/ps/pa/pf = pre_timestep of interfaces/services/applications/file system, tn/ts/ta/tf = apply_timestep)")
